@@ -20,7 +20,7 @@ def main():
     sh(f'git -C /repo worktree add --detach {WT} HEAD')
     res = {}
     only = sys.argv[1:]
-    for d in sorted(OUT.glob('C*/[A-N]')):
+    for d in sorted(OUT.glob('C*/[A-P]')):
         name = f'{d.parent.name}/{d.name}'
         if only and not any(name.startswith(o) for o in only):
             continue
